@@ -63,6 +63,9 @@ class Prop(PropBase):
             yield {"op": "one", "cls": rng.choice(sigs.CLASSES), "call": rng.choice(OPS),
                    "layout": rng.choice(["contig", "strided", "readonly", "fortran", "shared", "nonfinite"]),
                    "seed": rng.randrange(1 << 30)}
+        for call in ("stft", "istft", "time_shift", "freq_shift", "coh", "to_intensity", "fast_len", "snippet_f", "ufunc", "tslice"):
+            yield {"op": "one", "cls": "BasebandSignal", "call": call, "layout": "contig", "seed": rng.randrange(1 << 30),
+                   "long": rng.choice([65538, 70001, 131072])}
         for _ in range(60 if quick else 1500):
             yield {"op": "history", "cls": rng.choice(sigs.CLASSES[1:]),
                    "calls": [rng.choice(OPS) for _ in range(rng.randint(2, 10))],
@@ -263,7 +266,10 @@ class Prop(PropBase):
         rng = random.Random(case["seed"])
         cls = case["cls"]
         if case["op"] == "one":
-            z, big = self._mk(cls, case["layout"], g, var=case["seed"] % 12)
+            if case.get("long"):       # a long single-channel record (blocked / overwrite-in-place code paths)
+                z, big = self._mk(cls, case["layout"], g, L=case["long"], n=1, var=0)
+            else:
+                z, big = self._mk(cls, case["layout"], g, var=case["seed"] % 12)
             others = []
             if case["layout"] == "shared":
                 z2, _ = self._mk(cls, "shared", g, base=big, var=case["seed"] % 12)
